@@ -62,6 +62,13 @@ def make_sub(rng, g, name, modeset, template, child=None, regref_args=False, sym
         if pb not in G.params:
             G.params.append(pb)
         stmts.append("Dgate({%s} - 2*{%s}, 0.1) | %d" % (pa, pb, ms[0]))
+    if template and rng.random() < 0.25:
+        # three or more parameters combined inside one list element (and inside one plain argument)
+        while len(G.params) < 3:
+            G.params.append(G.ident())
+        pa, pb, pc = rng.sample(G.params, 3)
+        form = rng.choice(["{%s} + {%s} + {%s}", "{%s} + 2*{%s} - {%s}", "0.5*{%s} + {%s} + {%s}"]) % (pa, pb, pc)
+        stmts.append(rng.choice(["Mix(w=[%s, {%s}]) | %d" % (form, pa, ms[0]), "Mix(%s, w=[1, %s]) | %d" % (form, form, ms[0])]))
     if regref_args:
         # arguments over several measured registers, not symmetric in them (C19 only: what an
         # include does to the registers of a sub-program is not part of C07's statement)
@@ -232,6 +239,9 @@ def build(rng, g, symbolic_args=False, regref_args=False):
             if params:
                 tags.add("template-call")
                 vals_ = ["0.5", "2", "1.25", "3/4", "-0.7", "2*0.3", "pi/4"]
+                if rng.random() < 0.3:
+                    # values whose floating-point sum depends on the order of the additions
+                    vals_ = ["0.1", "0.2", "0.3", "0.7", "1e16", "-1e16", "1.1"]
                 if rng.random() < 0.3:
                     # values that compare equal although they differ in kind or in the sign of zero
                     vals_ = rng.choice([["1", "1.0"], ["0.0", "-0.0"], ["2", "2.0"], ["0", "-0.0", "0.0"]])
